@@ -267,6 +267,38 @@ theorem C15_remove_once (s0 : Store) (n : Name) (k : Nat) (schedule : List Nat)
   | zero => simp [seqRun]
   | succ j => exact seq_remove_present n j s0 hne hns hs
 
+/-- **an operation that fails has no effect**: whichever call answers with a naming error leaves the map exactly as it was
+    (all-or-nothing; the harness checks this on both storage back-ends, including registrations the storage refuses half way) -/
+theorem C15_failed_no_effect (c : Call) (s : Store) (h : (apply c s).2 = .namingError) : (apply c s).1 = s := by
+  cases c with
+  | register n u safe tags =>
+    simp only [apply, toOp, Op.run, runSteps, body, List.foldl] at h ⊢
+    by_cases hf : (safe && s.has n) = true
+    · simp [hf]
+    · simp [hf] at h
+  | setMeta n tags =>
+    simp only [apply, toOp, Op.run, runSteps, body, List.foldl] at h ⊢
+    cases hg : s.get n with
+    | none => simp [hg]
+    | some v => obtain ⟨u, t⟩ := v; simp [hg] at h
+  | remove n =>
+    simp only [apply, toOp, Op.run, runSteps, body, List.foldl] at h ⊢
+    by_cases hf : (!n.isEmpty && s.has n && n != nsName) = true
+    · simp [hf] at h
+    · simp [hf] at h
+  | removePrefix p =>
+    simp only [apply, toOp, Op.run, runSteps, body] at h ⊢
+    by_cases hp : p.isEmpty = true
+    · simp [hp, List.foldl] at h
+    · simp [hp, List.foldl, listStep] at h
+  | lookup n =>
+    simp only [apply, toOp, Op.run, runSteps, body, List.foldl] at h ⊢
+    cases hg : s.get n with
+    | none => simp [hg]
+    | some v => obtain ⟨u, t⟩ := v; simp [hg]
+  | count => simp [apply, toOp, Op.run, runSteps, body, List.foldl]
+  | list p => simp [apply, toOp, Op.run, runSteps, body, List.foldl, listStep]
+
 /-! ### non-vacuity -/
 
 private def sA : Store := [([97], 1, []), ([98], 2, [7])]
